@@ -71,3 +71,25 @@ Print Assumptions C20_b64_div_model.
 Theorem C20_g64_std_model : std_model (bpow radix2 (-53)) g64_ops.
 Proof. exact g64_std_model. Qed.
 Print Assumptions C20_g64_std_model.
+
+(* ---- the error bound on the ACTUAL binary64 computation (the SpecFloat instance that is executed bit for bit against the C++) ----
+   inputs: finite binary64 values whose exact coordinate differences are 0 or of magnitude in [2^-160, 2^160] (not all zero)
+   and whose charges are 0 or of magnitude in [2^-160, 2^160]: then every intermediate result is finite and normal (or exactly
+   zero), the computed inverse distance is within 5 * 2^-53 and each force component within 16 * 2^-53 (relative) of the exact
+   value *)
+Theorem C20_sf_pair_bridge : forall s t : part (binary_float 53 1024),
+  pair SpecFloat.spec_float (Tbfmm.Num.P2PSF.sf_ops 53 1024) (sf_part s) (sf_part t)
+  = let '(fx, fy, fz, inv) := pair (binary_float 53 1024) b64_ops s t in (B2SF fx, B2SF fy, B2SF fz, B2SF inv).
+Proof. exact sf_pair_bridge. Qed.
+Print Assumptions C20_sf_pair_bridge.
+
+Theorem C20_b64_pair_error : forall s t : part (binary_float 53 1024), b64_inputs_ok s t ->
+  let sR := partR_of s in let tR := partR_of t in
+  let '(fx, fy, fz, inv) := pair (binary_float 53 1024) b64_ops s t in
+  (is_finite fx = true /\ is_finite fy = true /\ is_finite fz = true /\ is_finite inv = true) /\
+  Rabs (B2R inv - / rdist sR tR) <= 5 * bpow radix2 (-53) * / rdist sR tR /\
+  Rabs (B2R fx - f_x _ (contrib sR tR)) <= 16 * bpow radix2 (-53) * Rabs (f_x _ (contrib sR tR)) /\
+  Rabs (B2R fy - f_y _ (contrib sR tR)) <= 16 * bpow radix2 (-53) * Rabs (f_y _ (contrib sR tR)) /\
+  Rabs (B2R fz - f_z _ (contrib sR tR)) <= 16 * bpow radix2 (-53) * Rabs (f_z _ (contrib sR tR)).
+Proof. exact b64_pair_error. Qed.
+Print Assumptions C20_b64_pair_error.
